@@ -408,12 +408,19 @@ def order_violation(text):
         got = [f for f, _ in vt if not f.startswith("_")]
         if got != methods:
             return {"class": "layout.vtable_order", "site": t, "msg": "vtable of %s has slots %r but the trait declares %r (one function pointer per exported method, in declaration order)" % (t, got, methods)}
+        # every slot is filled with the wrapper of the method of the same name. The wrappers' private
+        # naming scheme and the order of the fields in the initialiser are the generator's business:
+        # only "one common prefix + the slot's own name" and "every slot exactly once" are demanded.
         ini = [(a, b) for a, b in inits.get(t + "Vtbl", []) if not a.startswith("_")]
+        prefixes = set()
         for slot, fn in ini:
-            if fn != "cglue_wrapped_" + slot:
+            if not fn.endswith(slot):
                 return {"class": "layout.slot_wiring", "site": t, "msg": "default vtable of %s fills slot %s with %s" % (t, slot, fn)}
-        if [a for a, _ in ini] != methods:
-            return {"class": "layout.slot_wiring", "site": t, "msg": "default vtable of %s initialises slots %r, declared %r" % (t, [a for a, _ in ini], methods)}
+            prefixes.add(fn[:len(fn) - len(slot)])
+        if len(prefixes) > 1:
+            return {"class": "layout.slot_wiring", "site": t, "msg": "default vtable of %s fills its slots with wrappers of different naming (%r): a slot is wired to another method's wrapper" % (t, sorted(prefixes))}
+        if sorted(a for a, _ in ini) != sorted(methods):
+            return {"class": "layout.slot_wiring", "site": t, "msg": "default vtable of %s initialises slots %r, declared %r" % (t, sorted(a for a, _ in ini), sorted(methods))}
     gdecl = structs.pop("__gdecl__", {})
     for n, fs in sorted(structs.items()):
         if n.endswith("Container") and fs and fs[0][0] == "instance" or (n.endswith("Container") and any(f == "instance" for f, _ in fs)):
